@@ -20,6 +20,12 @@ Definition value_or_commaok (commaok ty v : N) : Prop :=
 Definition call_result (ty : N) (results : list N) : Prop :=
   match results with [r] => ty = r | rs => is_tuple_of T ty rs = true end.
 
+(* arguments against parameter types (receiver first): pairwise identical, or same core type with one side a type
+   literal, or a type parameter without core type on either side *)
+Definition compatible (a p : N) : Prop :=
+  a = p \/ core T a = 0 \/ core T p = 0 \/ (core T a = core T p /\ (is_unnamed T a = true \/ is_unnamed T p = true)).
+Definition args_compatible (args params : list N) : Prop := Forall2 compatible args params.
+
 Definition untyped_kind (k : kind) : Prop :=
   match k with
   | KChangeType | KConvert | KMultiConvert | KSliceToArray | KCompositeValue | KJump | KUnreachable
@@ -108,10 +114,13 @@ Inductive instr_typed (i : instr) : Prop :=
      (ckind T (opty (i_ops i) 0) = TSig /\
       length (match i_kind i with KDefer => removelast (tl (i_ops i)) | _ => tl (i_ops i) end) =
         (length (t_params (tget T (core T (opty (i_ops i) 0)))) + (if N.eqb recv 0 then 0 else 1))%nat /\
+      args_compatible (map snd (match i_kind i with KDefer => removelast (tl (i_ops i)) | _ => tl (i_ops i) end))
+                      ((if N.eqb recv 0 then [] else [recv]) ++ t_params (tget T (core T (opty (i_ops i) 0)))) /\
       (i_kind i = KCall -> call_result (i_ty i) (t_results (tget T (core T (opty (i_ops i) 0))))))) -> instr_typed i
 | ty_call_invoke : forall r msig, (i_kind i = KCall \/ i_kind i = KGo \/ i_kind i = KDefer) -> i_aux i = [1; r; msig] ->
     is_iface T (opty (i_ops i) 0) = true -> t_kind (tget T msig) = TSig ->
     length (match i_kind i with KDefer => removelast (tl (i_ops i)) | _ => tl (i_ops i) end) = length (t_params (tget T msig)) ->
+    args_compatible (map snd (match i_kind i with KDefer => removelast (tl (i_ops i)) | _ => tl (i_ops i) end)) (t_params (tget T msig)) ->
     (i_kind i = KCall -> call_result (i_ty i) (t_results (tget T msig))) -> instr_typed i
 | ty_call_builtin : forall a b, (i_kind i = KCall \/ i_kind i = KGo \/ i_kind i = KDefer) -> i_aux i = [2; a; b] -> instr_typed i
 | ty_none : untyped_kind (i_kind i) -> instr_typed i.
@@ -154,6 +163,17 @@ Lemma call_result_spec : forall ty rs,
   call_result ty rs.
 Proof.
   intros ty [|r [|r' t]] H; unfold call_result; try assumption. now apply N.eqb_eq.
+Qed.
+
+Lemma args_ok_sound : forall args params, args_ok T args params = true -> args_compatible args params.
+Proof.
+  induction args as [|a args IH]; intros [|p params] H; simpl in H; try discriminate; [constructor|].
+  apply andb_true_iff in H as [Hc H]. constructor; [|now apply IH].
+  unfold compat in Hc. unfold compatible.
+  apply orb_true_iff in Hc as [Hc|Hc];
+    [|right; right; right; apply andb_true_iff in Hc as [H1 H2]; apply N.eqb_eq in H1; apply orb_true_iff in H2; auto].
+  apply orb_true_iff in Hc as [Hc|Hc]; [|right; right; left; now apply has_core_false].
+  apply orb_true_iff in Hc as [Hc|Hc]; [left; now apply N.eqb_eq|right; left; now apply has_core_false].
 Qed.
 
 Ltac bsplit :=
@@ -398,8 +418,8 @@ Proof.
   try (eapply ty_call_builtin; eauto; fail).
   all: try (eapply ty_call_value; [exact Ek0|exact Ea|]; rewrite Ek;
             apply orb_true_iff in H as [H|H]; [left; now apply has_core_false|right]; bsplit2;
-            repeat split; auto; try (intros _; now apply call_result_spec); try (intros EK; discriminate EK); fail).
-  all: bsplit2; eapply ty_call_invoke; [exact Ek0|exact Ea|assumption|assumption|rewrite Ek; assumption|];
+            repeat split; auto; try (now apply args_ok_sound); try (intros _; now apply call_result_spec); try (intros EK; discriminate EK); fail).
+  all: bsplit2; eapply ty_call_invoke; [exact Ek0|exact Ea|assumption|assumption|rewrite Ek; assumption|rewrite Ek; now apply args_ok_sound|];
        try (intros _; now apply call_result_spec); try (intros EK; rewrite Ek in EK; discriminate EK).
 Qed.
 
